@@ -8,6 +8,8 @@ Domain : one group holding an implicit component with 1-3 outputs (total size 1-
          {default, BoundsEnforceLS, ArmijoGoldsteinLS(alpha, rho, c, maxiter, method)} x bound_enforcement.
 Oracle : validity predicate in PHYSICAL units on every observed Newton update u_k -> u_{k+1} (see ASSUMPTIONS).
 """
+import hashlib
+
 import numpy as np
 
 from vfw import core
@@ -42,9 +44,9 @@ ASSUMPTIONS = [
     "'not beyond the full step' is read as |u - u0| <= alpha*|step| with alpha the line search's initial step option "
     "(1 for BoundsEnforceLS)",
 ]
-BOUND = {'quick': '8 shards x 1000 cases (3/4 single update, 1/4 2-4 Newton iterations)',
-         'thorough': '32 shards x 10000 cases'}
-MIN_CLASS_FRACTION = {'judged': 0.9, 'clip_needed': 0.3, 'neg_scaling_bounded': 0.08, 'be_vector': 0.2, 'ls_AG': 0.3,
+BOUND = {'quick': '4 shards x 2000 cases (3/4 single update, 1/4 2-4 Newton iterations)',
+         'thorough': '16 shards x 20000 cases'}
+MIN_CLASS_FRACTION = {'judged': 0.8, 'clip_needed': 0.3, 'neg_scaling_bounded': 0.08, 'be_vector': 0.2, 'ls_AG': 0.3,
                       'start_on_bound': 0.2, 'multi_iter': 0.1}
 UNIT_TIMEOUT = {'quick': 1500, 'thorough': 4 * 3600}
 
@@ -231,11 +233,14 @@ class _F(np.ndarray):
 
 def known_vector_roundoff(p0, step, alpha, lo, hi, eps, mag):
     """VR: 'vector' enforcement while some element sits on one of its bounds (within eps) and its Newton step points
-    out of the bound with a small magnitude (alpha*|step| <= 1e-3 * magnitude of the element): the rounding error of
-    u + alpha*step, divided by |step|, makes the required pull-back exceed alpha."""
-    out_hi = (step > 0) & (hi - p0 <= eps)
-    out_lo = (step < 0) & (p0 - lo <= eps)
-    small = alpha * np.abs(step) <= 1e-3 * mag
+    out of the bound with a small non-zero magnitude (alpha*|step| <= 1e-3 * magnitude of the element; a step of
+    round-off size counts in either direction): the rounding error of u + alpha*step, divided by |step|, makes the
+    required pull-back exceed alpha."""
+    noise = np.abs(step) <= eps          # a step of round-off size (e.g. a converged element whose scaled value does
+    #                                      not survive the scaled -> physical -> scaled round trip exactly), either sign
+    out_hi = ((step > 0) | noise) & (hi - p0 <= eps)
+    out_lo = ((step < 0) | noise) & (p0 - lo <= eps)
+    small = (alpha * np.abs(step) <= 1e-3 * mag) & (step != 0)
     return bool(np.any((out_hi | out_lo) & small))
 
 
@@ -403,10 +408,13 @@ def check(case):
     for k in range(len(seq) - 1):
         p0 = u0 if k == 0 else seq[k]
         p1 = seq[k + 1]
+        # Newton step at the point the component was linearized at (for k = 0 this is u0 after OpenMDAO's scaling round
+        # trip, so the step is the drawn du up to round-off; the round-off matters for the VR predicate)
+        step = -resid(case, seq[k]) / dresid(case, seq[k])
         if k == 0:
-            step = du
-        else:
-            step = -resid(case, p0) / dresid(case, p0)
+            m0 = np.maximum.reduce([np.abs(u0), np.abs(du), np.abs(ref), np.abs(ref0), np.full(n, TINY)])
+            if np.any(np.abs(step - du) > 1e-13 * m0):
+                raise RuntimeError(f"Newton step at the first linearization point {step.tolist()} is not du {du.tolist()}")
         nupd += 1
         if judge_update(case, p0, p1, step, alpha, lo, hi, ref, ref0, be, negsc, res, f"update {k + 1}/{len(seq) - 1}"):
             break       # later iterations no longer start from a valid point
@@ -439,11 +447,14 @@ def strategy(tier):
     @st.composite
     def case(draw):
         # all discrete choices come out of Hypothesis-drawn 60-bit integers (far fewer draw calls than one per choice)
-        pool = [0, 1]          # [remaining value, remaining range]
+        # scrambled with sha256 because Hypothesis favours small integers, which would bias every choice to index 0)
+        pool = [0, 1, 0]          # [remaining value, remaining range, refills]
 
         def below(k):
             if pool[1] < k * 1024:
-                pool[0] = draw(pool_st)
+                pool[2] += 1
+                x = draw(pool_st)
+                pool[0] = int.from_bytes(hashlib.sha256(f"{x}:{pool[2]}".encode()).digest()[:8], 'big') >> 4
                 pool[1] = 2 ** 60
             pool[0], r = divmod(pool[0], k)
             pool[1] //= k
@@ -613,8 +624,8 @@ def strategy(tier):
 
 
 def units(tier, seed):
-    nshards = 8 if tier == 'quick' else 32
-    per = 1000 if tier == 'quick' else 10000
+    nshards = 4 if tier == 'quick' else 16
+    per = 2000 if tier == 'quick' else 20000
     return [{'kind': 'random', 'n': per, 'seed': core.shard_seed(seed, ID, i)} for i in range(nshards)]
 
 
